@@ -104,8 +104,80 @@ pub mod prelude {
 
     #[verifier::external_body]
     pub fn u16_to_be_bytes(x: u16) -> (r: [u8; 2])
-        ensures r[0] as int == (x as int) / 256, r[1] as int == (x as int) % 256
+        ensures r[0] as int == (x as int) / 256, r[1] as int == (x as int) % 256, r@ == be_int(x as int, 2)
     { x.to_be_bytes() }
+
+    // integer `to_be_bytes` for the twelve WriteToHeader instances: big-endian two's complement
+    // at the natural width (usize/isize: 64-bit target); cross-checked by complete Kani harnesses
+    /// big-endian encoding of the natural number `v` on `n` bytes (v < 256^n)
+    pub open spec fn be_nat(v: nat, n: nat) -> Seq<u8>
+        decreases n
+    {
+        if n == 0 { Seq::empty() } else { be_nat(v / 256, (n - 1) as nat).push((v % 256) as u8) }
+    }
+
+    pub open spec fn pow256(n: nat) -> nat
+        decreases n
+    { if n == 0 { 1 } else { 256 * pow256((n - 1) as nat) } }
+
+    /// two's-complement big-endian encoding of the integer `x` on `n` bytes
+    pub open spec fn be_int(x: int, n: nat) -> Seq<u8> {
+        if x >= 0 { be_nat(x as nat, n) } else { be_nat((x + pow256(n)) as nat, n) }
+    }
+
+
+    #[verifier::external_body]
+    pub fn u8_to_be_bytes(x: u8) -> (r: [u8; 1])
+        ensures r@ == be_int(x as int, 1)
+    { x.to_be_bytes() }
+    #[verifier::external_body]
+    pub fn u32_to_be_bytes(x: u32) -> (r: [u8; 4])
+        ensures r@ == be_int(x as int, 4)
+    { x.to_be_bytes() }
+    #[verifier::external_body]
+    pub fn u64_to_be_bytes(x: u64) -> (r: [u8; 8])
+        ensures r@ == be_int(x as int, 8)
+    { x.to_be_bytes() }
+    #[verifier::external_body]
+    pub fn u128_to_be_bytes(x: u128) -> (r: [u8; 16])
+        ensures r@ == be_int(x as int, 16)
+    { x.to_be_bytes() }
+    #[verifier::external_body]
+    pub fn usize_to_be_bytes(x: usize) -> (r: [u8; 8])
+        ensures r@ == be_int(x as int, 8)
+    { x.to_be_bytes() }
+    #[verifier::external_body]
+    pub fn i8_to_be_bytes(x: i8) -> (r: [u8; 1])
+        ensures r@ == be_int(x as int, 1)
+    { x.to_be_bytes() }
+    #[verifier::external_body]
+    pub fn i16_to_be_bytes(x: i16) -> (r: [u8; 2])
+        ensures r@ == be_int(x as int, 2)
+    { x.to_be_bytes() }
+    #[verifier::external_body]
+    pub fn i32_to_be_bytes(x: i32) -> (r: [u8; 4])
+        ensures r@ == be_int(x as int, 4)
+    { x.to_be_bytes() }
+    #[verifier::external_body]
+    pub fn i64_to_be_bytes(x: i64) -> (r: [u8; 8])
+        ensures r@ == be_int(x as int, 8)
+    { x.to_be_bytes() }
+    #[verifier::external_body]
+    pub fn i128_to_be_bytes(x: i128) -> (r: [u8; 16])
+        ensures r@ == be_int(x as int, 16)
+    { x.to_be_bytes() }
+    #[verifier::external_body]
+    pub fn isize_to_be_bytes(x: isize) -> (r: [u8; 8])
+        ensures r@ == be_int(x as int, 8)
+    { x.to_be_bytes() }
+
+    // R10: `v[a..b].copy_from_slice(src)` on a Vec (this Verus has no usable spec for a mutable
+    // sub-range borrow of a Vec): replaces exactly that range; panics unless the lengths agree
+    #[verifier::external_body]
+    pub fn vec_copy_range(v: &mut Vec<u8>, a: usize, b: usize, src: &[u8])
+        requires a <= b <= old(v)@.len(), b - a == src@.len(),
+        ensures final(v)@ =~= old(v)@.subrange(0, a as int) + src@ + old(v)@.subrange(b as int, old(v)@.len() as int)
+    { v[a..b].copy_from_slice(src) }
 
     // R9: std::cmp::min, used by ppp on usize only
     #[verifier::external_body]
